@@ -43,3 +43,14 @@ func (this *RaftTransport) VerifRemoveGroup(id [16]byte) { this.removeGroup(id) 
 
 // VerifTransport exposes the transport a group is attached to.
 func (this *RaftGroup) VerifTransport() *RaftTransport { return this.transport }
+
+// VerifGroupIds lists the raft groups currently attached to the transport (the groups this node serves).
+func (this *RaftTransport) VerifGroupIds() [][16]byte {
+	this.groupsMu.RLock()
+	defer this.groupsMu.RUnlock()
+	ids := make([][16]byte, 0, len(this.groups))
+	for id := range this.groups {
+		ids = append(ids, id)
+	}
+	return ids
+}
